@@ -532,7 +532,7 @@ class StmtMixin:
         if isinstance(v, View):
             self.havoc_obj(st, v.ref, False)
             return v
-        return v
+        return v   # scalars / matrices / opaque values have no heap contents to havoc
 
     def fresh_like(self, st, v):
         """A fresh value of the same shape (for rebound variables)."""
@@ -558,7 +558,11 @@ class StmtMixin:
                     m.m = fresh("hvm", INT)
                     st.assume(m.m >= 0)
             return r
-        return v
+        if isinstance(v, Mat):
+            return Mat(fresh("hvm", MAT))
+        if isinstance(v, (NoneV, StrC, Fn, Opaque, Undef)):
+            return v   # immutable / opaque values: a rebinding to another such value cannot be told apart
+        raise VCError("cannot havoc a value of kind %s" % type(v).__name__)
 
     def ghost_in(self, body, lc=None):
         out = []
